@@ -138,7 +138,7 @@ class Unit:
     """one generated Lean file"""
 
     def __init__(self, name, source, namespace, imports, insts, classes, pins=None, header='', attr_types=None,
-                 intrinsics=None, hooks=None):
+                 intrinsics=None, hooks=None, ctx_params=(), externals=None, abstract=None):
         self.name, self.src, self.ns, self.imports = name, source, namespace, imports
         self.insts = insts
         self.by_key = {}
@@ -150,6 +150,9 @@ class Unit:
         self.attr_types = attr_types or {}  # (type, attribute) -> (lean field text template, type)
         self.intrinsics = intrinsics or {}  # qual -> function(args[(text, type)]) -> (text, type)
         self.hooks = hooks or {}
+        self.ctx_params = list(ctx_params)  # [(lean name, lean type)] leading binders of every definition (e.g. the world)
+        self.externals = externals or {}    # key -> Inst of another unit (its `.lean` is fully qualified)
+        self.abstract = abstract or {}      # (receiver type, method, arg types) -> (lean text template, result type)
         self.notes = []
 
     # ---- lookups -------------------------------------------------------------------------------------
@@ -157,7 +160,7 @@ class Unit:
         return self.classes.get(typ)
 
     def find(self, qual, argtypes):
-        i = self.by_key.get((qual, tuple(argtypes)))
+        i = self.by_key.get((qual, tuple(argtypes))) or self.externals.get((qual, tuple(argtypes)))
         if i is None:
             raise Unsupported(f'no instance declared for `{qual}` at argument types {tuple(argtypes)}')
         return i
@@ -168,10 +171,10 @@ class Unit:
             got = pin_of(self.src.get(qual))
             if got != digest:
                 raise Unsupported(f'pinned helper `{qual}` changed (AST digest {got}, pinned {digest})')
-        out = ['/-!', f'# GENERATED by harness/py2lean.py from `{os.path.relpath(self.src.path, os.path.dirname(os.path.dirname(self.src.path)))}`'
+        out = [f'import {m}' for m in self.imports]
+        out += ['/-!', f'# GENERATED by harness/py2lean.py from `{os.path.relpath(self.src.path, os.path.dirname(os.path.dirname(self.src.path)))}`'
                ' on every run. Do not edit.', '',
                'One definition per (function, static argument types) instance of the current source text.', '-/']
-        out += [f'import {m}' for m in self.imports]
         out += ['', f'namespace {self.ns}', '']
         if self.header:
             out += [self.header, '']
@@ -184,8 +187,13 @@ class Unit:
         fn = self.src.get(inst.qual)
         tr = FnTr(self, inst, fn)
         body = tr.function_body()
-        binders = ' '.join(f'({lname(n)} : {lean_type(t)})' for n, t in inst.params if t != 'None')
-        src_lines = ast.unparse(fn).split('\n')
+        binders = ' '.join([f'({n} : {t})' for n, t in self.ctx_params] +
+                           [f'({lname(n)} : {lean_type(t)})' for n, t in inst.params if t != 'None'])
+        shown = ast.parse(ast.unparse(fn)).body[0]
+        if (shown.body and isinstance(shown.body[0], ast.Expr) and isinstance(getattr(shown.body[0], 'value', None), ast.Constant)
+                and isinstance(shown.body[0].value.value, str) and len(shown.body) > 1):
+            shown.body = shown.body[1:]
+        src_lines = ast.unparse(shown).split('\n')
         doc = [f'/-- `{inst.qual}`' + (f' — {inst.doc}' if inst.doc else '') +
                (' at ' + ', '.join(f'{n}: {t}' for n, t in inst.params[1:]) if len(inst.params) > 1 else ''), '```']
         doc += [ln.replace('-/', '- /') for ln in src_lines if not ln.strip().startswith(('"""', "'''"))][:40]
@@ -538,6 +546,9 @@ class FnTr:
             return self.attribute(e)
         if isinstance(e, ast.Compare):
             return self.compare(e)
+        if isinstance(e, ast.BoolOp) and self.has_optional_test(e):
+            # `x is not None and x.f()` as a value: the same narrowing as in an `if` test
+            return Val('(' + self.branch(e, lambda tr: 'true', lambda tr: 'false') + ')', 'Bool')
         if isinstance(e, ast.BoolOp):
             vals = [self.expr(v) for v in e.values]
             if not all(v.typ == 'Bool' for v in vals):
@@ -589,7 +600,7 @@ class FnTr:
             tmpl, typ = spec
             return Val(tmpl.format(base.text), typ, path=(f'{base.path}.{e.attr}' if base.path else None))
         cls = self.u.class_of(base.typ)
-        if cls and self.u.src.is_property(f'{cls}.{e.attr}'):
+        if cls and (self.u.src.is_property(f'{cls}.{e.attr}') or (f'{cls}.{e.attr}', ()) in self.u.externals):
             inst = self.u.find(f'{cls}.{e.attr}', ())
             return self.apply(inst, [base])
         raise Unsupported(f'`{self.inst.qual}`: attribute `.{e.attr}` of {base.typ}')
@@ -637,7 +648,8 @@ class FnTr:
     def apply(self, inst, args):
         if len(args) != len([p for p in inst.params]):
             raise Unsupported(f'`{inst.qual}` applied to {len(args)} arguments, declared {len(inst.params)}')
-        txt = ' '.join([inst.lean] + [_paren(a.text) for a, (_n, t) in zip(args, inst.params) if t != 'None'])
+        ctx = [n for n, _t in self.u.ctx_params] if inst in self.u.insts else []
+        txt = ' '.join([inst.lean] + ctx + [_paren(a.text) for a, (_n, t) in zip(args, inst.params) if t != 'None'])
         v = Val(f'({txt})', inst.value_type)
         v.raises = inst.raises
         return v
@@ -687,15 +699,20 @@ class FnTr:
                 r = hook(self, recv, f.attr, e.args)
                 if r is not None:
                     return r
-            if qual and qual in self.u.src.defs:
-                args = [self.expr(a) for a in e.args]
+            args = [self.expr(a) for a in e.args]
+            ab = self.u.abstract.get((recv.typ, f.attr, tuple(a.typ for a in args)))
+            if ab:
+                tmpl, typ = ab
+                return Val('(' + tmpl.format(*[_paren(x.text) for x in [recv] + args]) + ')', typ)
+            if qual and (qual in self.u.src.defs or any(k[0] == qual for k in self.u.externals)):
                 inst = self.u.find(qual, tuple(a.typ for a in args))
                 return self.apply(inst, [recv] + args)
-            raise Unsupported(f'`{self.inst.qual}`: method `.{f.attr}` of {recv.typ}')
+            raise Unsupported(f'`{self.inst.qual}`: method `.{f.attr}` of {recv.typ} at {tuple(a.typ for a in args)}')
         raise Unsupported(f'`{self.inst.qual}`: call `{ast.unparse(e)[:80]}`')
 
     def apply_ctor(self, inst, args):
-        txt = ' '.join([inst.lean] + [_paren(a.text) for a in args])
+        ctx = [n for n, _t in self.u.ctx_params] if inst in self.u.insts else []
+        txt = ' '.join([inst.lean] + ctx + [_paren(a.text) for a in args])
         v = Val(f'({txt})', inst.value_type)
         v.raises = inst.raises
         return v
